@@ -236,7 +236,8 @@ def streams(rng, tier):
     for name, cases in out:
         cand = [c for c in cases if c.get("op") in ("bin", "un", "bc") and "writes" not in c
                 and len(c.get("a") or c.get("vals") or []) >= 2]
-        for c in rng.sample(cand, min(len(cand), 250 if not thorough else 2500)):
+        take = cand if name == "dateadd" else rng.sample(cand, min(len(cand), 250 if not thorough else 2500))
+        for c in take:
             lived.append(dict(c, lived=rng.randrange(1 << 30)))
     out.append(("lived-in", lived))
     return [(name, _dedupe(cases)) for name, cases in out]
